@@ -205,6 +205,14 @@ func (s *Sess) UpdatePDR(req *ie.IE) ([]report.USAReport, error) {
 			}
 		}
 	}
+	for urrid := range newUrrids {
+		// a URR newly associated by this update is referenced by this PDR from now on
+		if _, ok = pdrInfo.RelatedURRIDs[urrid]; !ok {
+			if urrInfo, found := s.URRIDs[urrid]; found {
+				urrInfo.refPdrNum++
+			}
+		}
+	}
 	pdrInfo.RelatedURRIDs = newUrrids
 
 	return usars, err
@@ -357,6 +365,12 @@ func (s *Sess) CreateURR(req *ie.IE) error {
 			ISTM: mInfo.HasISTM(),
 			MNOP: mInfo.HasMNOP(),
 		},
+	}
+	// PDRs created (or updated) earlier may already refer to this URR
+	for _, pdrInfo := range s.PDRIDs {
+		if _, ok := pdrInfo.RelatedURRIDs[id]; ok {
+			s.URRIDs[id].refPdrNum++
+		}
 	}
 
 	err = s.rnode.driver.CreateURR(s.LocalID, req)
